@@ -13,7 +13,7 @@
 (* sequential library is its return.  MC_* modules instantiate the menus   *)
 (* and compose the actions into bounded scenarios / sessions.              *)
 (***************************************************************************)
-EXTENDS Trunc, Json
+EXTENDS Approx, Json
 
 VARIABLES heap, hist
 vars == <<heap, hist>>
@@ -534,7 +534,7 @@ ANewPdfChol(d, R, s) ==
         qm == Pick(VEC(d), R, s)
         o  == NewPdf(MkSeq(R, LAMBDA i : QM(qS[i])), MkSeq(R, LAMBDA i : QV(qm[i])))
     IN Emit(Append(heap, o),
-            Step("NewPdf", [cls |-> "PDF", mode |-> "S", Sigma |-> qS, mu |-> qm, chol |-> qL], NoObj,
+            Step("NewPdf", [cls |-> "PDF", mode |-> "S", Sigma |-> qS, mu |-> qm, chol |-> qL, ci |-> s % Len(LMENU(d))], NoObj,
                  NextId, ExpectObj(o), 0, NoObj, NoObj))
 
 CholOf(i) == LET st == CHOOSE h \in {hist[k] : k \in 1..Len(hist)} : h.id = i IN st.a.chol
@@ -559,6 +559,140 @@ ASample(i, n, mode, zmode, s0, r0, c0, seed) ==
                            x |-> IF mode = "stream"
                                  THEN MkSeq(n, LAMBDA s : MkSeq(R, LAMBDA r :
                                           VAdd(p.mu[r], MatVec(L[r], MkVec(d, LAMBDA c : FI(z[s][r][c])))))) ELSE <<>>]))
+
+\* ------------------------------------------------------------------------
+\* Approximate conditionals (C16, C17).  Results whose moments are values with atoms are exported as
+\* [cls |-> "ValPDF", mu |-> R x D Vals, Sig |-> R x D x D Vals]; their precision / log-determinant / normalisation
+\* are checked for coherence on the code object itself by the harness (inverse of a sum of atoms is not representable).
+\* ------------------------------------------------------------------------
+IsFeat(o) == o.cls \in {"LRBF", "LSEM"}
+IsHet(o) == o.cls \in {"HetExp", "HetCosh", "HetStep", "HetRelu"}
+Opaque(cls) == [cls |-> cls]
+
+LSMENU == << Q(1, 1), Q(2, 1), Q(1, 2), Q(3, 2) >>
+\* M menus for the feature models: Dy x (Dx + Dk), kernel columns non-zero
+FeatM(dy, nphi, s) == Q([a \in 1..dy |-> [b \in 1..nphi |-> (((2 * a + 3 * b + s) % 5) - 2) + (IF a = b THEN 2 ELSE 0)]], 2)
+
+ANewFeat(cls, dy, dx, dk, s) ==
+    LET qM == FeatM(dy, dx + dk, s)
+        qb == VEC2(dy)[(s % 4) + 1]
+        qS == SPD(dy)[(s % 4) + 1]
+        qc == Pick(VEC2(dx), dk, s + 1)                           \* RBF centres / SEM weights w_i
+        ql == MkSeq(dk, LAMBDA i : Q([d \in 1..dx |-> LSMENU[((i + d + s) % 4) + 1].n * (2 \div LSMENU[((i + d + s) % 4) + 1].d)], 2))
+        qw0 == Pick(POS, dk, s)                                   \* SEM offsets w0_i
+        ctr == MkSeq(dk, LAMBDA i : QV(qc[i]))
+        ls == MkSeq(dk, LAMBDA i : QV(ql[i]))
+        Sg == QM(qS)
+        ID == InvDet(Sg)
+        c == [cls |-> cls, M |-> <<QM(qM)>>, b |-> <<QV(qb)>>, Sig |-> <<Sg>>, Lam |-> <<ID.inv>>, dSig |-> <<ID.det>>,
+              kL |-> IF cls = "LRBF" THEN MkSeq(dk, LAMBDA i : RBFKernelL(ctr[i], ls[i])) ELSE MkSeq(dk, LAMBDA i : SEMKernelL(ctr[i])),
+              kn |-> IF cls = "LRBF" THEN MkSeq(dk, LAMBDA i : RBFKerneln(ctr[i], ls[i])) ELSE MkSeq(dk, LAMBDA i : SEMKerneln(ctr[i], QS(qw0[i]))),
+              kb |-> IF cls = "LRBF" THEN MkSeq(dk, LAMBDA i : RBFKernelb(ctr[i], ls[i])) ELSE MkSeq(dk, LAMBDA i : SEMKernelb(QS(qw0[i]))),
+              ctr |-> ctr, ls |-> ls, w0 |-> MkSeq(dk, LAMBDA i : QS(qw0[i]))]
+    IN Emit(Append(heap, c),
+            Step("NewFeat", [cls |-> cls, M |-> qM, b |-> qb, Sigma |-> qS, centres |-> qc, length_scale |-> ql, w0 |-> qw0],
+                 NoObj, NextId, Opaque(cls), 0, NoObj, NoObj))
+
+AFeatCondOnX(i, N, s) ==
+    LET c == heap[i] qX == Pick(PointMenu(FDx(c)), N, s) IN
+    /\ IsFeat(c)
+    /\ Emit(Append(heap, Opaque("ValPDF")),
+            Step("ApproxCondOnX", [i |-> i, x |-> qX], NoObj, NextId,
+                 [cls |-> "ValPDF", mu |-> MkSeq(N, LAMBDA k : FeatCondMean(c, QV(qX[k]))),
+                  Sig |-> MkSeq(N, LAMBDA k : MkSeq(FDy(c), LAMBDA a : MkSeq(FDy(c), LAMBDA b : VConst(c.Sig[1][a][b]))))],
+                 0, NoObj, NoObj))
+
+ValBlock(Sxx, Cyx, Syy, dx, dy) ==       \* [[Sxx, Cyx'], [Cyx, Syy]] with Sxx rational, the others Val matrices
+    MkSeq(dx + dy, LAMBDA a : MkSeq(dx + dy, LAMBDA b :
+        IF a <= dx /\ b <= dx THEN VConst(Sxx[a][b])
+        ELSE IF a <= dx THEN Cyx[b - dx][a]
+        ELSE IF b <= dx THEN Cyx[a - dx][b]
+        ELSE Syy[a - dx][b - dx]))
+
+AFeatTransform(kind, i, j) ==
+    LET c == heap[i] p == heap[j] R == NumR(p) dx == FDx(c) dy == FDy(c) IN
+    /\ IsFeat(c) /\ IsPdf(p) /\ NumD(p) = dx
+    /\ Emit(Append(heap, Opaque(IF kind = "conditional" THEN "ApproxCond" ELSE "ValPDF")),
+            Step("ApproxTransform", [kind |-> kind, i |-> i, j |-> j], NoObj, NextId,
+                 CASE kind = "marginal" -> [cls |-> "ValPDF", mu |-> MkSeq(R, LAMBDA r : FeatMeanY(c, p, r)),
+                                            Sig |-> MkSeq(R, LAMBDA r : FeatCovY(c, p, r))]
+                   [] kind = "joint" -> [cls |-> "ValPDF",
+                                         mu |-> MkSeq(R, LAMBDA r : MkSeq(dx, LAMBDA a : VConst(Truth(p, r).mu[a])) \o FeatMeanY(c, p, r)),
+                                         Sig |-> MkSeq(R, LAMBDA r : ValBlock(Truth(p, r).Sig, FeatCovYX(c, p, r), FeatCovY(c, p, r), dx, dy))]
+                   [] kind = "conditional" -> Opaque("ApproxCond"),
+                 0, NoObj, NoObj))
+
+\* heteroscedastic models
+HetA(dy, da, s) == Q([a \in 1..dy |-> [b \in 1..da |-> IF a = b THEN 2 ELSE IF b > dy THEN ((a + b + s) % 3) - 1 ELSE IF b = a + 1 THEN 1 ELSE 0]], 2)
+\* generic small weights (exp / cosh-1): Dk x (Dx + 1), offset in column 1
+HetWGen(dk, dx, s) == Q([i \in 1..dk |-> [d \in 1..(dx + 1) |-> ((i + 2 * d + s) % 3) - 1 + (IF d = i + 1 THEN 1 ELSE 0)]], 3)
+\* weights for the step / relu links, paired with a density built by ANewPdfChol(dx, 1, s): w_i = c (L')^-1 e_k,
+\* so that sqrt(w_i' Sigma w_i) = |c| exactly.  Tables for dx = 1 (any w: sh = |w| l) and dx = 2.
+HetWSq(dx, dk, s) ==
+    LET ls == s % 3 IN
+    IF dx = 1
+    THEN LET l == LMENU(1)[ls + 1] IN     \* L = l.n/l.d ;  w = 1 / -1/2 ; sh = |w| l
+         [W |-> Q([i \in 1..dk |-> IF i = 1 THEN <<1, 2>> ELSE <<-1, -1>>], 2),
+          sh |-> MkSeq(dk, LAMBDA i : IF i = 1 THEN Q(l.n[1][1], l.d) ELSE Q(l.n[1][1], 2 * l.d))]
+    ELSE CASE ls = 0 -> [W |-> Q([i \in 1..dk |-> IF i = 1 THEN <<1, 2, 0>> ELSE <<-1, -2, 1>>], 2),
+                         sh |-> MkSeq(dk, LAMBDA i : IF i = 1 THEN Q(1, 1) ELSE Q(1, 2))]
+           [] ls = 1 -> [W |-> Q([i \in 1..dk |-> IF i = 1 THEN <<1, 1, 0>> ELSE <<-1, 3, 2>>], 2),
+                         sh |-> MkSeq(dk, LAMBDA i : IF i = 1 THEN Q(1, 1) ELSE Q(1, 2))]
+           [] ls = 2 -> [W |-> Q([i \in 1..dk |-> IF i = 1 THEN <<1, 6, 0>> ELSE <<-2, -9, 3>>], 2),
+                         sh |-> MkSeq(dk, LAMBDA i : IF i = 1 THEN Q(1, 1) ELSE Q(1, 1))]
+
+ANewHet(cls, dy, da, dk, dx, s) ==
+    LET sq == cls \in {"HetStep", "HetRelu"}
+        qM == MMenu(dy, dx)[(s % 3) + 1]
+        qb == VEC2(dy)[(s % 4) + 1]
+        qA == HetA(dy, da, s)
+        ws == HetWSq(dx, dk, s)
+        qW == IF sq THEN ws.W ELSE HetWGen(dk, dx, s)
+        c == [cls |-> cls, M |-> <<QM(qM)>>, b |-> <<QV(qb)>>, A |-> QM(qA), W |-> QM(qW),
+              sh |-> IF sq THEN MkSeq(dk, LAMBDA i : QS(ws.sh[i])) ELSE MkSeq(dk, LAMBDA i : 0), qW |-> qW]
+    IN /\ dy <= da /\ dk <= da /\ (sq => dx <= 2)
+       /\ Emit(Append(heap, c),
+               Step("NewHet", [cls |-> cls, M |-> qM, b |-> qb, A |-> qA, W |-> qW], NoObj, NextId, Opaque(cls), 0, NoObj, NoObj))
+
+\* exact value of the linear layer h_i(x) = w_i'x + w0_i at a menu point, as a rational [n, d] in plain integers
+HLin(qW, i, qx) ==
+    LET dx == Len(qx.n)
+        num == qW.n[i][1] * qx.d + ISum([d \in 1..dx |-> qW.n[i][d + 1] * qx.n[d]], dx)
+    IN Q(num, qW.d * qx.d)
+
+\* link(h) at an exact rational h
+LinkAt(cls, h) ==
+    CASE cls = "HetExp" -> <<T1(1, LNQ(QS(h)))>>
+      [] cls = "HetCosh" -> <<T1(FHalf, LNQ(QS(h))), T1(FHalf, LNQ(FNeg(QS(h)))), T1(FI(-1), LNZero)>>
+      [] cls = "HetStep" -> VConst(IF h.n >= 0 THEN 1 ELSE 0)
+      [] cls = "HetRelu" -> VConst(IF h.n >= 0 THEN QS(h) ELSE 0)
+
+AHetCondOnX(i, N, s) ==
+    LET c == heap[i] qX == Pick(PointMenu(HDx(c)), N, s) dy == HDy(c) S0 == HSigma0(c) IN
+    /\ IsHet(c)
+    /\ Emit(Append(heap, Opaque("ValPDF")),
+            Step("ApproxCondOnX", [i |-> i, x |-> qX], NoObj, NextId,
+                 [cls |-> "ValPDF",
+                  mu |-> MkSeq(N, LAMBDA k : LET m == VAdd(MatVec(c.M[1], QV(qX[k])), c.b[1]) IN MkSeq(dy, LAMBDA a : VConst(m[a]))),
+                  Sig |-> MkSeq(N, LAMBDA k : MkSeq(dy, LAMBDA a : MkSeq(dy, LAMBDA b :
+                             VPlus(VConst(S0[a][b]),
+                                   ValSumTo([u \in 1..HDk(c) |-> VScaleF(FMul(c.A[a][u], c.A[b][u]), LinkAt(c.cls, HLin(c.qW, u, qX[k])))], HDk(c))))))],
+                 0, NoObj, NoObj))
+
+AHetTransform(kind, i, j) ==
+    LET c == heap[i] p == heap[j] R == NumR(p) dx == HDx(c) dy == HDy(c)
+        VV(v) == MkSeq(Len(v), LAMBDA a : VConst(v[a]))
+        VM(m) == MkSeq(Len(m), LAMBDA a : MkSeq(Len(m[1]), LAMBDA b : VConst(m[a][b])))
+    IN /\ IsHet(c) /\ IsPdf(p) /\ NumD(p) = dx
+       /\ Emit(Append(heap, Opaque(IF kind = "conditional" THEN "ApproxCond" ELSE "ValPDF")),
+               Step("ApproxTransform", [kind |-> kind, i |-> i, j |-> j], NoObj, NextId,
+                    CASE kind = "marginal" -> [cls |-> "ValPDF", mu |-> MkSeq(R, LAMBDA r : VV(HetMeanY(c, p, r))),
+                                               Sig |-> MkSeq(R, LAMBDA r : HetCovY(c, p, r, c.sh))]
+                      [] kind = "joint" -> [cls |-> "ValPDF",
+                                            mu |-> MkSeq(R, LAMBDA r : VV(Truth(p, r).mu) \o VV(HetMeanY(c, p, r))),
+                                            Sig |-> MkSeq(R, LAMBDA r : ValBlock(Truth(p, r).Sig, VM(HetCovYX(c, p, r)), HetCovY(c, p, r, c.sh), dx, dy))]
+                      [] kind = "conditional" -> Opaque("ApproxCond"),
+                    0, NoObj, NoObj))
 
 \* ------------------------------------------------------------------------
 \* Properties that are meaningful in every state of every instance
@@ -818,6 +952,26 @@ Inv_Sample ==
       \A r \in 1..NumR(p) : LET L == QM(qL[r]) IN
           /\ MEq(MatMulT(L, L), Truth(p, r).Sig)
           /\ \A a \in 1..NumD(p) : \A b \in 1..NumD(p) : a < b => L[a][b] = 0      \* lower triangular
+
+\* C16: kernels are bumps of unit height; kernel expectations agree with the independent closed form
+Inv_KernelUnitHeight ==
+    \A i \in 1..Len(heap) : LET c == heap[i] IN
+       (c.cls = "LRBF" => \A k \in 1..FDk(c) : LNEq(EvalLnC(c.kL[k], c.kn[k], c.kb[k], c.ctr[k]), LNZero))
+    /\ (c.cls = "LSEM" => \A k \in 1..FDk(c) :
+            LET w == c.ctr[k] xs == VScale(FDiv(c.w0[k], Dot(w, w)), w) IN LNEq(EvalLnC(c.kL[k], c.kn[k], c.kb[k], xs), LNZero))
+Inv_KernelExpectation ==
+    (IsAct("ApproxTransform") /\ IsFeat(heap[Last.a.i])) =>
+      LET c == heap[Last.a.i] p == heap[Last.a.j] IN
+      \A r \in 1..NumR(p) : \A k \in 1..FDk(c) :
+         LET T == Truth(p, r) IN
+         LNEq(ProdStats(c, p, r, <<k>>).ln,
+              IF c.cls = "LRBF" THEN RBFKernelExpectation(c.ctr[k], c.ls[k], T.mu, T.Sig)
+              ELSE SEMKernelExpectation(c.ctr[k], c.w0[k], T.mu, T.Sig))
+\* heteroscedastic models: the supplied sh really is sqrt(w' Sigma w)
+Inv_HetSh ==
+    (IsAct("ApproxTransform") /\ heap[Last.a.i].cls \in {"HetStep", "HetRelu"}) =>
+      LET c == heap[Last.a.i] p == heap[Last.a.j] IN
+      \A r \in 1..NumR(p) : \A u \in 1..HDk(c) : FEq(FMul(c.sh[u], c.sh[u]), Quad(HW(c, u), Truth(p, r).Sig, HW(c, u)))
 
 \* the exporter: print the behaviour once it is complete (Done is defined by the MC module)
 Export(done) == done => PrintT(ToJson(hist))
